@@ -22,7 +22,7 @@ ASSUMPTIONS = ["the independent model vf/model/{blssig,h2c,bls12381}.py and its 
                "hashlib.sha256 is correct"]
 ENGINE = "hypothesis"
 TECHNIQUE = ("differential property-based testing (Hypothesis) against an independent implementation of the IETF draft anchored by published vectors; cross-suite call sequences")
-_REQ = ["sign:derived_tag", "cross_suite_sequence", "sign:msg_contains_own_pk", "sign:basic", "sign:aug", "sign:pop", "pop_prove", "aggregate:n>=2", "anchor:eth_sig", "anchor:eth_agg",
+_REQ = ["sign:derived_tag", "cross_suite_sequence", "sign:msg_contains_own_pk", "sign:basic", "sign:aug", "sign:pop", "pop_prove", "aggregate:n>=2", "aggregate:n>=7", "aggregate:n_with_three_one_bits", "anchor:eth_sig", "anchor:eth_agg",
         "anchor:eth_pk", "sign:sk>=200b", "sign:msg=empty", "sign:msg=56-64", "aggregate:non_subgroup", "aggregate:prefix_sums_to_identity", "aggregate:result_y_im=0"]
 REQUIRED_LABELS = {"quick": _REQ, "thorough": _REQ}
 
@@ -139,6 +139,10 @@ def o_aggregate(ctx, case):
     if len(sigs) >= 2:
         ctx.label("aggregate:n>=2")
         ctx.nontrivial(("a", suite, case["sigs"]))
+    if len(sigs) >= 7:
+        ctx.label("aggregate:n>=7")
+    if bin(len(sigs)).count("1") >= 3:
+        ctx.label("aggregate:n_with_three_one_bits")
     if any(not B.g2_in_subgroup(p) for p in pts):
         ctx.label("aggregate:non_subgroup")
     acc, hit = None, False
@@ -205,7 +209,9 @@ def s_aggregate():
                                               else bc.torsion_point("G2", a % 40)))
         return {"suite": suite, "sigs": [hx(s) for s in sigs]}
     entry = st.tuples(st.sampled_from([0, 0, 0, 0, 1, 2, 3, 4, 4, 5, 6]), st.integers(1, 12), st.integers(0, 6))
-    return st.tuples(sc.s_suite(), st.lists(entry, min_size=1, max_size=6)).map(build)
+    # every list length 1..24 (the summation order - left fold, pairwise tree, chunks - must not matter)
+    sizes = st.one_of(st.integers(1, 6), st.integers(7, 24))
+    return st.tuples(sc.s_suite(), sizes.flatmap(lambda k: st.lists(entry, min_size=k, max_size=k))).map(build)
 
 
 def _anchor_cases():
@@ -256,6 +262,9 @@ def t_aggregate(ctx, shard, nshards, n):
                 ex.append({"suite": "aug", "sigs": [hx(B.signature_bytes(pt))]})
                 ex.append({"suite": "pop", "sigs": [hx(B.signature_bytes(pt)), hx(B.signature_bytes(None))]})
     ex.append({"suite": "basic", "sigs": [hx(B.signature_bytes(B.G2)), hx(B.signature_bytes(B.g2_mul(B.G2, -1)))]})
+    for k in range(1, 33):                                   # honest signatures of k signers, every k up to 32
+        su = sc.SUITES[k % 3]
+        ex.append({"suite": su, "sigs": [hx(blssig.sign(su, 100 + j, b"every list length")) for j in range(k)]})
     drive(ctx, f"agg{shard}", s_aggregate(), lambda c: o_aggregate(ctx, c), n, ex[shard::nshards], shrink=False)
 
 
